@@ -36,6 +36,26 @@ CAR2D = ("dubins", "reedsshepp")
 CONSTRAINED = ("projected", "atlas", "tangentbundle")
 
 
+SPECIAL = ("torus", "mobius", "klein", "sphere")
+
+
+def old_extent_guard():
+    """does the tree under test still have the former guard `weights_[i] >= epsilon` in CompoundStateSpace::getMaximumExtent
+    (before bb83952a6, F360)?  Read from the source text, so that the MODEL follows the variant of the tree (no spurious
+    correspondence noise on scratch trees based on older commits / on a revert); the independent oracle does not care:
+    it reports the old defect as a violation either way (the F360 line is `fixed`, it suppresses nothing)."""
+    try:
+        src = open(os.path.join(core.REPO, "src", "ompl", "base", "src", "StateSpace.cpp")).read()
+        i = src.index("ompl::base::CompoundStateSpace::getMaximumExtent()")
+        body = src[i:src.index("\n}", i)]
+        return "weights_[i] >= std::numeric_limits<double>::epsilon()" in body
+    except (OSError, ValueError):
+        return False
+
+
+OLD_EXTENT = old_extent_guard()
+
+
 def is_con(k):
     """projected|atlas|tangentbundle[:sphere|:plane|:torus]"""
     return k.split(":")[0] in CONSTRAINED
@@ -182,6 +202,8 @@ def prims(sp):
     k = sp[0]
     if k == "hist":
         return prims(sp[3])
+    if k == "wspecial":
+        return prims(sp[1])
     if k in ("rv", "so2", "so3", "time", "disc"):
         return [sp]
     if k == "cmp":
@@ -227,6 +249,10 @@ def nvals(sp):
 
 def unit_kind(sp):
     k = sp[0]
+    if k == "hist":
+        return unit_kind(sp[3])
+    if k == "wspecial":
+        return sp[1][0]
     if k == "time":
         return "timeU" if sp[1] is None else "timeB"
     if k == "dubins":
@@ -251,6 +277,10 @@ def units(sp, w=1.0):
     if k == "spacetime":                                        # compound [(w0, space), (w1, time)], initially (1-tw, tw)
         w0, w1 = st_weights(sp)
         return units(sp[4], w * w0) + [(("time", sp[3]), w * w1, 1)]
+    if k == "wspecial":
+        # a Torus / Moebius / Klein / Sphere space with changed weights is still ONE unit (a distance function of its own):
+        # the unit is the space with its history
+        return [(make_hist(sp[1], [("setweight", (), 0, sp[2][0]), ("setweight", (), 1, sp[2][1])]), w, nvals(sp))]
     return [(sp, w, nvals(sp))]
 
 
@@ -1266,6 +1296,8 @@ def run_script_pair(ck, hbin, script, with_model=True, retry=True):
     impl, rc, err = run_bin_retry(ck, hbin, script) if retry else ck.run_bin(hbin, script)
     impl = impl or []
     mscript = list(script)
+    if OLD_EXTENT and mscript and mscript[0].split()[0] == "spacedist":
+        mscript[0] = "spacedist-oldextent" + mscript[0][len("spacedist"):]
     for i, ln in enumerate(impl):
         if ln.startswith("d ") and " rec " in ln:
             head, _, rec = ln.partition(" rec ")
